@@ -154,7 +154,12 @@ def oracle_c10(name, inst, res):
         return f"elements differ: expected {exp} got {got}"
     # the next source is subscribed only at the instant the previous one terminated in the continuing way
     cont = {"concat": "C", "repeat": "C", "while_do": "C", "do_while": "C", "catch": "E", "retry": "E",
-            "catch_handler": "E", "on_error_resume_next": "CE"}[name]
+            "catch_handler": "E", "on_error_resume_next": "CE", "for_in": "C"}[name]
+
+    def continuing(st):
+        """the step's input is a termination, of the kind the operator continues on, of a subscribed source"""
+        i = st["inp"]
+        return bool(i and i[0] == "src" and i[2][0] in cont and i[1] in st["live_before"])
     nsubs = 0
     for st in steps:
         for k in st["subs"]:
@@ -162,15 +167,78 @@ def oracle_c10(name, inst, res):
             if st["tag"] == 0:
                 continue
             i = st["inp"]
-            if not (i and i[0] == "src" and i[2][0] in cont and i[1] in st["live_before"]):
+            if not continuing(st):
                 return f"source {k} subscribed at input {st['tag']} which is not a continuing termination ({i})"
     # the sources are consumed IN ORDER, starting with the first one, at the subscription instant
     order = [(st["tag"], k) for st in steps for k in st["subs"]]
-    if name in ("concat", "catch", "on_error_resume_next"):
+    if name in ("concat", "catch", "on_error_resume_next", "for_in"):
         if [k for _, k in order] != list(range(len(order))):
             return f"sources subscribed in the order {[k for _, k in order]} (expected 0, 1, 2, ...)"
-        if spec[1] >= 1 and (not order or order[0][0] != 0):
+        first_ok = spec[1] >= 1 and not (name == "for_in" and spec[2][0][0] == "raise")
+        if first_ok and (not order or order[0][0] != 0):
             return f"{name} over {spec[1]} source(s): the first source was not subscribed at the subscription instant"
+        if len(order) > spec[1]:
+            return f"{name} over {spec[1]} source(s) made {len(order)} subscriptions"
+    # a LAZY iterable of sources (generator / for_in's mapper) is advanced once at subscription and once per
+    # continuing termination, never ahead of time; effect j = the iterable producing source j (or finding itself
+    # exhausted, j = number of sources)
+    eff = [(tag, a) for (tag, kind, a, b) in res["log"] if kind == "effect"]
+    if inst.get("lazy"):
+        if [j for _, j in eff] != list(range(len(eff))):
+            return f"the lazy iterable was advanced in the order {[j for _, j in eff]}"
+        subs_at = {k: tag for tag, k in order}
+        for (tag, j) in eff:
+            if j == 0 and tag != 0:
+                return f"the first source was produced at input {tag}, not at the subscription instant"
+            if j > 0 and not (tag < len(steps) and continuing(steps[tag])):
+                return (f"source {j} was requested from the lazy iterable at input {tag}, which is not a "
+                        f"continuing termination of the current source")
+            if j in subs_at and subs_at[j] != tag:
+                return f"source {j} was produced at input {tag} but subscribed at input {subs_at[j]}"
+        for k, tag in subs_at.items():
+            if (tag, k) not in eff:
+                return f"source {k} subscribed at input {tag} without being produced then"
+        if inst.get("argerr"):
+            return inst["argerr"][0]
+    # on_error_resume_next with factory arguments: factory k is called when its turn comes, with the error the
+    # previous source ended with (the very object), or None after a completion / for the first source
+    if inst.get("factories"):
+        flog = inst["factory_log"]
+        subs_at = {k: tag for tag, k in order}
+        called = [k for (_, k, _) in flog]
+        if len(set(called)) != len(called):
+            return f"a source factory was called twice: {called}"
+        for k, tag in subs_at.items():
+            if inst["factories"][k] and k not in called:
+                return f"source {k} subscribed although its factory was never called"
+        for (tag, k, ex) in flog:
+            if subs_at.get(k) != tag:
+                return f"factory {k} called at input {tag}, its source subscribed at {subs_at.get(k)}"
+            if k == 0:
+                want = None
+                if tag != 0:
+                    return f"factory 0 called at input {tag}"
+            else:
+                st = steps[tag]
+                if not continuing(st):
+                    return f"factory {k} called at input {tag}, which is not a termination of the previous source"
+                if st["inp"][1] != k - 1:
+                    return f"factory {k} called when source {st['inp'][1]} terminated"
+                want = st["inp"][2][1] if st["inp"][2][0] == "E" else None
+            if ex is not want:
+                return f"factory {k} received {ex!r}, expected {want!r}"
+    # catch(handler): the handler is called once, with the source's error and the source observable
+    if name == "catch_handler":
+        hlog = inst.get("handler_log", [])
+        errs0 = [(tag, ev[1]) for (tag, k, ev) in acc if k == 0 and ev[0] == "E"]
+        if len(hlog) != len(errs0[:1]):
+            return f"catch(handler): handler called {len(hlog)} times for {len(errs0[:1])} source error(s)"
+        if hlog:
+            tag, e, same = hlog[0]
+            if tag != errs0[0][0] or e is not errs0[0][1]:
+                return f"catch(handler): handler called at input {tag} with {e!r}, expected {errs0[0]}"
+            if not same:
+                return "catch(handler): the handler's second argument is not the source observable"
     elif name in ("repeat", "retry", "while_do", "do_while"):
         if any(k != 0 for _, k in order):
             return f"{name} subscribed sources {[k for _, k in order]}"
@@ -193,6 +261,14 @@ def oracle_c10(name, inst, res):
         last = acc[-1] if acc else None
         if name in ("concat", "repeat") and t[1] == "E" and not (last and last[2][0] == "E" and last[0] == t[0]):
             return "error terminal without a source error at that instant"
+        if name == "for_in" and t[1] == "E" and not (last and last[2][0] == "E" and last[0] == t[0]):
+            raised = eff and eff[-1][0] == t[0] and eff[-1][1] < spec[1] and spec[2][eff[-1][1]][0] == "raise"
+            if not raised:
+                return "error terminal without a source error or a raising mapper call at that instant"
+        if name in ("concat", "for_in") and t[1] == "C":
+            completions = sum(1 for (_, k, ev) in acc if ev[0] == "C")
+            if completions != spec[1] or nsubs != spec[1]:
+                return f"{name} over {spec[1]} source(s) completed after {nsubs} subscriptions / {completions} completions"
         if name in ("catch", "retry") and t[1] == "C" and nsubs > 0 and not (last and last[2][0] == "C" and last[0] == t[0]):
             return "completion without a source completion at that instant"
     return None
@@ -308,6 +384,29 @@ def oracle_c13(name, inst, res):
                     exp.append((tag, tuple(seqs[j][len(exp)] for j in range(n))))
         if exp != got:
             return f"zip tuples differ: expected {exp} got {got}"
+        # "completes when a completed source has no buffered element left": at the first such moment, not before
+        buf = {k: 0 for k in range(n)}
+        done = set()
+        want = None
+        for (tag, k, ev) in acc:
+            if ev[0] == "N":
+                buf[k] += 1
+                if all(buf.values()):
+                    for j in buf:
+                        buf[j] -= 1
+            elif ev[0] == "C":
+                done.add(k)
+            else:
+                break                                   # an error: the statement's completion rule ends here
+            if any(buf[j] == 0 for j in done):
+                want = tag
+                break
+        t = term(em)
+        if want is not None and not (t and t[0] == want and t[1] == "C"):
+            return (f"zip: a completed source had no buffered element left at input {want} but the output "
+                    f"{'got ' + repr(t[1]) + ' at input ' + str(t[0]) if t else 'did not complete'}")
+        if want is None and t and t[1] == "C":
+            return f"zip completed at input {t[0]} although no completed source had run out of buffered elements"
     elif name == "combine_latest":
         latest = {}
         exp = []
@@ -318,6 +417,16 @@ def oracle_c13(name, inst, res):
                     exp.append((tag, tuple(latest[j] for j in range(n))))
         if exp != got:
             return f"combine_latest tuples differ: expected {exp} got {got}"
+        # completion (the statement only implies it): a tuple is due "on each element once all sources have emitted",
+        # so the output may complete only when no element can produce a tuple any more -- every source completed, or
+        # (may, not must) some completed source never emitted
+        t = term(em)
+        if t and t[1] == "C":
+            done = {k for (tag, k, ev) in acc if ev[0] == "C" and tag <= t[0]}
+            silent = [k for k in done if k not in latest]
+            if len(done) < n and not silent:
+                return (f"combine_latest completed at input {t[0]} while sources {sorted(set(range(n)) - done)} can "
+                        f"still deliver elements that call for a tuple")
     elif name == "with_latest_from":
         latest = {}
         exp = []
@@ -344,6 +453,24 @@ def oracle_c13(name, inst, res):
                     exp.append((tag, tuple(last[j] for j in range(n))))
         if exp != got:
             return f"fork_join result differs: expected {exp} got {got}"
+        # "completes at once when one completes empty"; otherwise completion may only follow the tuple
+        last2, want, errored = set(), None, False
+        for (tag, k, ev) in acc:
+            if ev[0] == "N":
+                last2.add(k)
+            elif ev[0] == "C":
+                if k not in last2:
+                    want = tag
+                    break
+            else:
+                errored = True
+                break
+        t = term(em)
+        if want is not None and not (t and t[0] == want and t[1] == "C"):
+            return (f"fork_join: a source completed empty at input {want} but the output "
+                    f"{'got ' + repr(t[1]) + ' at input ' + str(t[0]) if t else 'did not complete'}")
+        if want is None and t and t[1] == "C" and not (exp and exp[0][0] == t[0]):
+            return f"fork_join completed at input {t[0]} without a tuple or a source completing empty"
     elif name == "amb":
         first = acc[0] if acc else None
         if first:
